@@ -226,6 +226,8 @@ def check(ctx: Ctx) -> None:
         else:
             ctx.violation("R9.4", f"kk._boukamp_weight:degree:{adm}", UT, kkw.node, f"the Kramers-Kronig weight for admittance={adm} does not scale as |X|^-2")
 
+    _pseudo_chisqr_weight_rule(ctx, model)
+
     # ---------------- R9.5 ------------------------------------------------------------------
     reviewed = {"1e+18": "stand-in for 1/0 under an `== 0.0` guard (open resistor / inductor in the admittance map)",
                 "1e-50": "stand-in for a vanishing capacitance under an `== 0.0` guard",
@@ -250,3 +252,91 @@ def check(ctx: Ctx) -> None:
         raise AnalysisError(f"R9.5: only {n_lit} numeric literals on fit variables found (floor 3)")
     zero_guard_rule(ctx, model, "R9.5", "the tolerance is a bare number compared with a dimensioned quantity, so whether the coefficient survives depends on the unit of impedance/frequency")
     ctx.sample({"tau_term": str(tau_term)[:160]})
+
+
+
+def _pseudo_chisqr_weight_rule(ctx: Ctx, model) -> None:
+    """R9.4: the pseudo chi-squared compares impedances (degree 1), so its weight must be the impedance weight |Z|^-2 in both
+    representations; a weight computed for the admittance representation (|Y|^-2 = |Z|^2) makes the statistic scale as c^4.
+    Every weight argument of _calculate_pseudo_chisqr in the Kramers-Kronig package is followed to its producer (through
+    local bindings, branches and the callers of the enclosing function)."""
+    from ..prov import Resolver, call_args
+    AUq = "pyimpspec.analysis.utility:_calculate_pseudo_chisqr"
+
+    def callers_of(fi):
+        for q, g in model.funcs.items():
+            if g.module.startswith(KK):
+                for c in calls_in(g.node):
+                    if model.resolve_call(g, c) == fi.qname:
+                        yield g, c
+
+    def kind(fi, expr, at, depth=0) -> List[str]:
+        r = Resolver(fi.node).resolve(expr, at)
+        return kind_of(fi, r, depth)
+
+    def kind_of(fi, r, depth) -> List[str]:
+        if isinstance(r, ast.Constant) and r.value is None:
+            return ["impedance"]
+        if isinstance(r, ast.Call) and isinstance(r.func, ast.Name) and r.func.id == "phi":
+            return [k for a in r.args for k in kind_of(fi, a, depth)]
+        if isinstance(r, ast.Call) and dotted(r.func).split(".")[-1] == "_boukamp_weight":
+            adm = next((k.value for k in r.keywords if k.arg == "admittance"), r.args[1] if len(r.args) > 1 else None)
+            if adm is None or (isinstance(adm, ast.Constant) and adm.value is False):
+                return ["impedance"]
+            if isinstance(adm, ast.Constant) and adm.value is True:
+                return ["admittance"]
+            return [f"representation-specific (admittance={norm(adm)})"]
+        if isinstance(r, ast.Name) and r.id in {a.arg for a in fi.node.args.posonlyargs + fi.node.args.args + fi.node.args.kwonlyargs} and depth < 3:
+            out: List[str] = []
+            for g, c in callers_of(fi):
+                m_ = dict(call_args(c, fi.node))
+                if m_.get(r.id) is None:
+                    # handed over inside a keyword dictionary: **d with d = dict(name=value, …) or {"name": value, …}
+                    for kw in c.keywords:
+                        if kw.arg is None:
+                            d_ = Resolver(g.node).resolve(kw.value, c)
+                            if isinstance(d_, ast.Call) and dotted(d_.func) == "dict":
+                                m_.update({k.arg: k.value for k in d_.keywords if k.arg})
+                            elif isinstance(d_, ast.Dict):
+                                m_.update({k.value: v for k, v in zip(d_.keys, d_.values) if isinstance(k, ast.Constant)})
+                if m_.get(r.id) is None:
+                    out.append("impedance" if _default_none(fi.node, r.id) else f"unknown (parameter {r.id} not passed by {g.qual})")
+                else:
+                    out += [k + f" via {g.qual}" if k != "impedance" else k for k in kind(g, m_[r.id], c, depth + 1)]
+            return out or [f"unknown (parameter {r.id} of {fi.qual}, no caller found)"]
+        return [f"unknown ({norm(r)[:60]})"]
+
+    n = 0
+    for q, fi in sorted(model.funcs.items()):
+        if not fi.module.startswith(KK):
+            continue
+        for c in calls_in(fi.node):
+            if model.resolve_call(fi, c) != AUq:
+                continue
+            n += 1
+            w = next((k.value for k in c.keywords if k.arg == "weight"), c.args[2] if len(c.args) > 2 else None)
+            kinds = ["impedance"] if w is None else kind(fi, w, c)
+            ctx.instance("R9.4", f"{fi.qual}: weight of the pseudo chi-squared is {sorted(set(kinds))}")
+            unknown = [k for k in kinds if k.startswith("unknown")]
+            bad = [k for k in kinds if k != "impedance" and not k.startswith("unknown")]
+            if bad:
+                ctx.violation("R9.4", f"{fi.qual}:pseudo-chisqr-weight", fi.module, c,
+                              f"{fi.qual} weights the impedance residuals of the pseudo chi-squared with a {bad[0]} weight: in the admittance representation the statistic then scales as c^4 under Z→cZ instead of being invariant")
+            elif unknown:
+                raise AnalysisError(f"{fi.qual}: producer of the pseudo chi-squared weight not understood: {unknown[0]}")
+            else:
+                ctx.ok()
+    if n < 3:
+        raise AnalysisError(f"R9.4: only {n} pseudo chi-squared sites found in the Kramers-Kronig package (floor 3)")
+
+
+def _default_none(fn: ast.FunctionDef, name: str) -> bool:
+    a = fn.args
+    pos = a.posonlyargs + a.args
+    for p_, d in zip(pos[len(pos) - len(a.defaults):], a.defaults):
+        if p_.arg == name:
+            return isinstance(d, ast.Constant) and d.value is None
+    for p_, d in zip(a.kwonlyargs, a.kw_defaults):
+        if p_.arg == name:
+            return isinstance(d, ast.Constant) and d is not None and d.value is None
+    return False
